@@ -1,0 +1,85 @@
+//go:build verif
+
+package http2
+
+import "sort"
+
+// VerifH2Conn is a copy of the bookkeeping of one pooled ClientConn taken under cc.mu
+// (verification hook for property C09; compiled only with -tags verif).
+type VerifH2Conn struct {
+	Conn          *ClientConn // identity only
+	Streams       []uint32    // keys of cc.streams, ascending
+	Reserved      int         // cc.streamsReserved
+	NextStreamID  uint32
+	MaxConcurrent uint32
+	Pending       int // cc.pendingRequests
+	Closed        bool
+	Closing       bool
+	GoAway        bool
+	DoNotReuse    bool
+	SingleUse     bool
+}
+
+// VerifH2Pool is a lock-consistent copy of a clientConnPool: taken under p.mu, and under each
+// cc.mu in turn (the order GetClientConn -> ReserveNewRequest uses).
+type VerifH2Pool struct {
+	Conns    map[string][]VerifH2Conn // p.conns, in list order
+	Dialing  []string                 // keys of p.dialing, sorted
+	AddCalls []string                 // keys of p.addConnCalls, sorted
+	KeysOK   bool                     // p.keys[cc] lists exactly the keys under which cc is in p.conns
+	Strict   bool                     // t.StrictMaxConcurrentStreams
+}
+
+// VerifH2PoolSnapshot returns the state of t's default connection pool (nil pool: zero value).
+func VerifH2PoolSnapshot(t *Transport) VerifH2Pool {
+	s := VerifH2Pool{Conns: map[string][]VerifH2Conn{}, KeysOK: true, Strict: t.StrictMaxConcurrentStreams}
+	p, ok := t.connPool().(*clientConnPool)
+	if !ok {
+		return s
+	}
+	p.mu.Lock()
+	defer p.mu.Unlock()
+	listed := map[*ClientConn]map[string]bool{}
+	for k, l := range p.conns {
+		for _, cc := range l {
+			cc.mu.Lock()
+			c := VerifH2Conn{Conn: cc, Reserved: cc.streamsReserved, NextStreamID: cc.nextStreamID,
+				MaxConcurrent: cc.maxConcurrentStreams, Pending: cc.pendingRequests, Closed: cc.closed,
+				Closing: cc.closing, GoAway: cc.goAway != nil, DoNotReuse: cc.doNotReuse, SingleUse: cc.singleUse}
+			for id := range cc.streams {
+				c.Streams = append(c.Streams, id)
+			}
+			cc.mu.Unlock()
+			sort.Slice(c.Streams, func(i, j int) bool { return c.Streams[i] < c.Streams[j] })
+			s.Conns[k] = append(s.Conns[k], c)
+			if listed[cc] == nil {
+				listed[cc] = map[string]bool{}
+			}
+			listed[cc][k] = true
+		}
+	}
+	for cc, ks := range p.keys {
+		if len(ks) != len(listed[cc]) {
+			s.KeysOK = false
+		}
+		for _, k := range ks {
+			if !listed[cc][k] {
+				s.KeysOK = false
+			}
+		}
+	}
+	for cc := range listed {
+		if _, ok := p.keys[cc]; !ok {
+			s.KeysOK = false
+		}
+	}
+	for k := range p.dialing {
+		s.Dialing = append(s.Dialing, k)
+	}
+	for k := range p.addConnCalls {
+		s.AddCalls = append(s.AddCalls, k)
+	}
+	sort.Strings(s.Dialing)
+	sort.Strings(s.AddCalls)
+	return s
+}
